@@ -1027,24 +1027,48 @@ func ConvertZToMinMaxAltitudekey(inputIndex int64, inputZoom int64, outputZoom i
 	if err != nil {
 		return 0, 0, err
 	}
-	upperBound, err := convertZToMinAltitudekey(inputIndex+1, inputZoom, outputZoom, zBaseExponent, zBaseOffset)
-	if err != nil {
-		return 0, 0, err
+
+	// The upper bound is the last altitudekey whose cell starts below the (exclusive) upper edge of
+	// the input voxel. The key index is rounded up, so that no altitude of the voxel is lost when the
+	// edge does not fall on a key boundary. For voxels thinner than 1m the edge is kept in units of
+	// the voxel height so that it is not rounded at all.
+	var upperBound int64
+	var upperEdge, upperShift int64
+	fineShift := inputZoom - consts.ZOriginValue
+	if fineShift <= 0 {
+		upperEdge = common.CalculateArithmeticShift(inputIndex+1, -fineShift) + zBaseOffset
+		upperShift = outputZoom - zBaseExponent
+	} else {
+		if arithmeticShiftOverflows(zBaseOffset, fineShift) {
+			return 0, 0, errors.NewSpatialIdError(errors.InputValueErrorCode, "output index does not exist with given outputZoom, zBaseExponent, and zBaseOffset")
+		}
+		upperEdge = inputIndex + 1 + common.CalculateArithmeticShift(zBaseOffset, fineShift)
+		upperShift = outputZoom - zBaseExponent - fineShift
+	}
+	if arithmeticShiftOverflows(-upperEdge, upperShift) {
+		return 0, 0, errors.NewSpatialIdError(errors.InputValueErrorCode, "output index does not exist with given outputZoom, zBaseExponent, and zBaseOffset")
+	}
+	upperBound = ceilingArithmeticShift(upperEdge, upperShift) - 1
+
+	_, ok := validateIndexExists(upperBound, outputZoom, false)
+	if !ok {
+		return 0, 0, errors.NewSpatialIdError(errors.InputValueErrorCode, "output index does not exist with given outputZoom, zBaseExponent, and zBaseOffset")
 	}
 
-	// Determine the vertical index/indices to return.
-	// a) always return the lowerBound index. Regardless of the difference between the inputZoom and outputZoom,
-	// mathematically the altitude associated with the lower bounds will always satisfy the solution set.
-	// b) cycle through indices from lowerBounds+1 to upperBounds with i to find any possible additional indexes
-	// that satisfy the solution set.
-	// but only output (minimum key, maximum key) as (lowerBound, upperBound - 1)
-	minAltitudeKey = lowerBound
-	maxAltitudeKey = upperBound - 1
-	if minAltitudeKey > maxAltitudeKey {
-		return minAltitudeKey, minAltitudeKey, nil
-	} else {
-		return minAltitudeKey, maxAltitudeKey, nil
+	return lowerBound, upperBound, nil
+}
+
+// ceilingArithmeticShift index*2^shiftを切り上げで計算する(common.CalculateArithmeticShiftは切り捨て)
+func ceilingArithmeticShift(index int64, shift int64) int64 {
+	return -common.CalculateArithmeticShift(-index, shift)
+}
+
+// arithmeticShiftOverflows index*2^shiftがint64に収まらない場合にtrueを返す
+func arithmeticShiftOverflows(index int64, shift int64) bool {
+	if shift <= 0 {
+		return false
 	}
+	return common.CalculateArithmeticShift(common.CalculateArithmeticShift(index, shift), -shift) != index
 }
 
 func convertZToMinAltitudekey(inputIndex int64, inputZoom int64, outputZoom int64, zBaseExponent int64, zBaseOffset int64) (int64, error) {
@@ -1058,6 +1082,9 @@ func convertZToMinAltitudekey(inputIndex int64, inputZoom int64, outputZoom int6
 	// 2. Calculate outputIndex
 	outputIndex := common.CalculateArithmeticShift(inputIndex, -(inputZoom - consts.ZOriginValue))
 	outputIndex += zBaseOffset
+	if arithmeticShiftOverflows(outputIndex, outputZoom-zBaseExponent) {
+		return 0, errors.NewSpatialIdError(errors.InputValueErrorCode, "output index does not exist with given outputZoom, zBaseExponent, and zBaseOffset")
+	}
 	outputIndex = common.CalculateArithmeticShift(outputIndex, (outputZoom - zBaseExponent))
 
 	// 3. Check to make sure outputIndex exists in the output system
